@@ -1,11 +1,16 @@
 """C04 - at-most-once delivery: duplicates, replays and retransmissions are dropped."""
-from harness import core, connlib
+from harness import core, connlib, serverlib
 
 PROP = "C04"
-LEAN_MODULES = ["MpgsModel.Props.C04"]
-MODEL_MODULES = ["MpgsModel.Model.Conn", "MpgsModel.Model.ToyAead", "MpgsModel.Model.ConnStep"]
+LEAN_MODULES = ["MpgsModel.Props.C04", "MpgsModel.Props.C04Loop"]
+MODEL_MODULES = ["MpgsModel.Model.Conn", "MpgsModel.Model.ToyAead", "MpgsModel.Model.ConnStep", "MpgsModel.Model.Server"]
 NS = "Mpgs.Conn."
+SNS = "Mpgs.Server."
 THEOREMS = [
+    (SNS + "C04_loop_dispatch_once", "full"),
+    (SNS + "C04_loop_dispatch_clears", "full"),
+    (SNS + "C04_loop_halfopen_no_dispatch", "full"),
+    (SNS + "C04_loop_connected_dispatch", "full"),
     (NS + "C04_duplicate_dropped_whole", "full"),
     (NS + "C04_accepted_is_new", "full"),
     (NS + "C04_datagram_at_most_once", "full"),
@@ -216,6 +221,17 @@ def run(ctx):
     real = connlib.Real()
     rng = ctx.rng
     n = ctx.scale(60, 1200)
+    # the handler's view (observe_at: EventHandler.handle_message): histories of the REAL server loop, recorded first; clients send
+    # application messages right behind their challenge response, the network duplicates datagrams within and across iterations
+    scases, souts, sextra = [], {}, {}
+    for i in range(ctx.scale(30, 500)):
+        cid = "sl%d" % i
+        lines, outs, recs, slog = serverlib.gen_server_case(real, rng, cid, n_iter=rng.choice([30, 60]), n_clients=rng.choice([1, 2, 3]),
+                                                            hostile=rng.choice([0.2, 0.5]), act_p=0.05, collide=0.1, loss=0.05,
+                                                            mtu=rng.choice([1500, 512]), silent=0.02, leave=0.03, spawn=0.5, dup_next=0.3)
+        scases.append(lines)
+        souts[cid] = outs
+        sextra[cid] = recs
     cases = [known_finding_case(), known_finding_frag_case()]
     for i in range(n):
         cases.append(connlib.gen_two_party(
@@ -249,3 +265,16 @@ def run(ctx):
             if rec["op"] == "recv" and rec.get("ev") == ["drop"]:
                 dups += 1
     ctx.notes["datagrams_dropped_as_duplicate_or_stale"] = dups
+    if any(f["kind"] not in KNOWN for f in ctx.failures):
+        return
+
+    def snontrivial(case, outs):
+        return sum(1 for o in outs if "msg:" in o) >= 2 and any("connect:" in o for o in outs)
+    ctx.correspondence("Server(loop/at-most-once)", "Conn", scases, lambda case: souts[core.case_id(case)], snontrivial,
+                       "the REAL server loop with clients that connect, send application messages (also in the datagram that carries their "
+                       "challenge response), leave and fall silent, every datagram possibly duplicated in the same or the next iteration, "
+                       "hostile datagrams in between - compared with the loop model per iteration (handler events with message numbers and "
+                       "payload digests, sends, both pools)", minimise=False, post=serverlib.post)
+    for c in scases:
+        if serverlib.once_monitor(c, sextra[core.case_id(c)], ctx):
+            return
